@@ -557,7 +557,7 @@ func (x *Exec) evalField(env *SpecEnv, e EField) Val {
 	}
 	if _, isIface := t.Underlying().(*types.Interface); isIface {
 		// ghost field of an interface value
-		name := types.TypeString(t, func(p *types.Package) string { return p.Name() })
+		name := x.specIfaceName(env, e.X, t)
 		if is, ok := x.DB.Ifaces[name]; ok {
 			a := x.ghostAddr(is, e.Name, base)
 			return Val{T: x.loadAddr(env.cur, a), Typ: a.T}
